@@ -3,7 +3,7 @@
    (printf %.18f + SQLite's decimal parser), whose closeness is measured by the check. *)
 From mathcomp Require Import ssreflect ssrfun ssrbool eqtype ssrnat seq.
 From Coq Require Import String.
-From LS Require Import IoModel IoSpec.
+From LS Require Import IoModel IoSpec IoSpec2.
 Set Implicit Arguments. Unset Strict Implicit. Unset Printing Implicit Defensive.
 Local Open Scope string_scope.
 
@@ -31,6 +31,10 @@ Theorem C16_matrix_roundtrip r c (m : seq (seq V)) : size m = r -> all (fun row 
 Proof. exact: matrix_roundtrip. Qed.
 Theorem C16_vlist_roundtrip (l : seq (seq V)) : deser_vlist tonat (ser_vlist ofnat l) = l.
 Proof. exact: vlist_roundtrip. Qed.
+(* tensors (CPCA block loadings/scores): order in front, every matrix with its own dimensions — any order, any shapes *)
+Theorem C16_tensor_roundtrip (t : seq (nat * nat * seq (seq V))) : all (@twf V) t ->
+  deser_tensor tonat (ser_tensor ofnat t) = map snd t.
+Proof. exact: tensor_roundtrip. Qed.
 End C16.
 
 (* without executing the DROP statements a second write appends: the witness of the defect
@@ -44,3 +48,4 @@ Print Assumptions C16_last_write_wins.
 Print Assumptions C16_nothing_else_survives.
 Print Assumptions C16_matrix_roundtrip.
 Print Assumptions C16_vlist_roundtrip.
+Print Assumptions C16_tensor_roundtrip.
